@@ -2,11 +2,14 @@ package harness
 
 import (
 	"context"
+	"encoding/json"
 	"fmt"
 	"strings"
 	"time"
 
 	"github.com/projecteru2/core/rpc"
+	pb "github.com/projecteru2/core/rpc/gen"
+	"google.golang.org/grpc/metadata"
 	coretypes "github.com/projecteru2/core/types"
 
 	"verif/sim/simengine"
@@ -28,6 +31,7 @@ func (w *cluWorld) execLambda(ctx context.Context, op cluOp) (out opOutcome) {
 	w.apps[op.App+"/"+op.Entry] = true
 	in := make(chan []byte)
 	close(in)
+	errFired0 := w.sim.Stats.ErrFired
 	ids, ch, err := w.core.cal.RunAndWait(ctx, opts, in)
 	if err != nil {
 		out.err, out.failed = err, true
@@ -61,6 +65,27 @@ func (w *cluWorld) execLambda(ctx context.Context, op cluOp) (out opOutcome) {
 		if isExit {
 			w.probe("lambda_exit_code_reported")
 			w.res.Nontrivial = true
+		}
+		// the engine that ran it: when nothing failed (no injected failure in this
+		// request, logs and wait scripted to work) the last message is the exit code the
+		// engine reported, whatever its value
+		for _, n := range sortedKeys(w.engines) {
+			en := w.engines[n]
+			ran := false
+			for _, cid := range en.CreateLog {
+				if cid == id {
+					ran = true
+				}
+			}
+			if !ran || en.Beh.LogsErr || en.Beh.WaitErr || w.sim.Stats.ErrFired != errFired0 {
+				continue
+			}
+			want := fmt.Sprintf("[exitcode] %d", en.Beh.ExitCode)
+			if d != want {
+				w.viol("C30", "exit-code-not-reported", "lambda", fmt.Sprintf("workload %s exited with code %d and nothing failed, but its last message is %q (type %v), expected %q", shortID(id), en.Beh.ExitCode, d, m.StdStreamType, want))
+			} else if en.Beh.ExitCode != 0 {
+				w.probe("lambda_nonzero_exit_code_reported")
+			}
 		}
 	}
 	return
@@ -263,4 +288,73 @@ func (w *cluWorld) vibranium() *rpc.Vibranium {
 		w.vibOf = w.core
 	}
 	return w.vib
+}
+
+// fakeListStream is the server side of a ListWorkloads stream.
+type fakeListStream struct {
+	ctx context.Context
+	n   int
+}
+
+func (s *fakeListStream) Send(*pb.Workload) error       { s.n++; return nil }
+func (s *fakeListStream) SetHeader(metadata.MD) error   { return nil }
+func (s *fakeListStream) SendHeader(metadata.MD) error  { return nil }
+func (s *fakeListStream) SetTrailer(metadata.MD)        {}
+func (s *fakeListStream) Context() context.Context      { return s.ctx }
+func (s *fakeListStream) SendMsg(m interface{}) error   { return nil }
+func (s *fakeListStream) RecvMsg(m interface{}) error   { return nil }
+
+// checkRemap is the cluster-level part of C32: after an operation that changed CPU
+// bindings on a node and re-mapped it, every workload without CPU binding on that node
+// has been given (engine update) exactly the cores that still have a full core's worth of
+// free pieces - all cores if there is none. allowedStale is the number of workloads whose
+// engine update itself was failed by injection in this operation.
+func (w *cluWorld) checkRemap(post *cluState, nodes map[string]bool, allowedStale int, after string) {
+	for _, n := range sortedKeys(nodes) {
+		rec := post.Resource[n]
+		en := w.engines[n]
+		if rec == nil || rec.Capacity == nil || rec.Usage == nil || en == nil || w.remapDirty[n] {
+			continue
+		}
+		share := map[string]bool{}
+		for _, c := range sortedKeys(rec.Capacity.CPUMap) {
+			if rec.Capacity.CPUMap[c]-rec.Usage.CPUMap[c] >= w.cfg.ShareBase {
+				share[c] = true
+			}
+		}
+		if len(share) == 0 {
+			for _, c := range sortedKeys(rec.Capacity.CPUMap) {
+				share[c] = true
+			}
+		}
+		want := strings.Join(sortedKeys(share), ",")
+		var stale []string
+		checked := 0
+		for _, id := range sortedKeys(post.NodeWL[n]) {
+			wl := post.Workloads[id]
+			if wl == nil || len(wlRes(wl).CPUMap) != 0 {
+				continue // bound workloads are left alone
+			}
+			c, ok := en.Get(id)
+			if !ok {
+				continue
+			}
+			got := map[string]int{}
+			if p, ok := c.Resource["cpumem"]; ok {
+				b, _ := json.Marshal(p["cpu_map"])
+				_ = json.Unmarshal(b, &got)
+			}
+			checked++
+			if g := strings.Join(sortedKeys(got), ","); g != want {
+				stale = append(stale, fmt.Sprintf("%s has cores [%s]", shortID(id), g))
+			}
+		}
+		if checked > 0 {
+			w.probe("c32_remap_checked")
+		}
+		if len(stale) > allowedStale {
+			w.res.Nontrivial = true
+			w.viol("C32", "unbound-workload-not-remapped", after, fmt.Sprintf("after %s on node %s the cores with a full free share are [%s], but %s (%d engine update(s) were failed by injection)", after, n, want, strings.Join(stale, "; "), allowedStale))
+		}
+	}
 }
